@@ -51,6 +51,7 @@ The full data structure is
 
 """
 
+import itertools
 import random
 from pprint import pprint
 
@@ -402,40 +403,53 @@ def _data_split(dat, batch_size, axis=0):
 
 @tf.autograph.experimental.do_not_convert
 def data_generator(data, fun=_data_split, args=(), kwargs=None, MAX_ITER=1000):
-    """Data generator: call ``fun`` to each ``data`` as a generator. The extra arguments will be passed to ``fun``."""
+    """Data generator: call ``fun`` to each ``data`` as a generator. The extra arguments will be passed to ``fun``.
+
+    Containers without any array inside (``{}``, ``[]``, ``()``) are the same in every
+    batch, so they never limit the number of batches.
+    """
     kwargs = kwargs if kwargs is not None else {}
 
-    def _gen(dat):
+    def _build(dat, items):
         if isinstance(dat, dict):
-            if not dat:
-                for i in range(MAX_ITER):
-                    yield {}
-            ks, vs = [], []
-            for k, v in dat.items():
-                ks.append(k)
-                vs.append(_gen(v))
-            for s_data in zip(*vs):
-                yield type(dat)(zip(ks, s_data))
-        elif isinstance(dat, list):
-            if not dat:
-                for i in range(MAX_ITER):
-                    yield []
-            vs = []
-            for v in dat:
-                vs.append(_gen(v))
-            for s_data in zip(*vs):
-                yield list(s_data)
-        elif isinstance(dat, tuple):
-            vs = []
-            for v in dat:
-                vs.append(_gen(v))
-            for s_data in zip(*vs):
-                yield s_data
-        else:
-            for i in fun(dat, *args, **kwargs):
-                yield i
+            return type(dat)(zip(dat.keys(), items))
+        if isinstance(dat, list):
+            return list(items)
+        return tuple(items)
 
-    return _gen(data)
+    def _copy(dat):
+        if isinstance(dat, dict):
+            return type(dat)({k: _copy(v) for k, v in dat.items()})
+        if isinstance(dat, (list, tuple)):
+            return type(dat)([_copy(v) for v in dat])
+        return dat
+
+    def _gen(dat):
+        """generator of the pieces of dat, or None when dat contains no array"""
+        if isinstance(dat, (dict, list, tuple)):
+            values = list(dat.values()) if isinstance(dat, dict) else list(dat)
+            gens = [_gen(v) for v in values]
+            if all(g is None for g in gens):
+                return None
+
+            def _iter():
+                for s_data in zip(*[g for g in gens if g is not None]):
+                    s_data = iter(s_data)
+                    yield _build(
+                        dat,
+                        [
+                            _copy(v) if g is None else next(s_data)
+                            for v, g in zip(values, gens)
+                        ],
+                    )
+
+            return _iter()
+        return fun(dat, *args, **kwargs)
+
+    ret = _gen(data)
+    if ret is None:
+        return itertools.repeat(data)
+    return ret
 
 
 def data_split(data, batch_size, axis=0):
